@@ -124,6 +124,73 @@ Lemma kp_mult name ty idx content : kpres (check_multiplicity s T name ty idx co
 Proof. unfold check_multiplicity. kp_tac. Qed.
 Lemma kp_pfv schema : kpres (parse_file_version s schema).
 Proof. unfold parse_file_version, ver_or_panic. cbv zeta. kp_tac. Qed.
+
+(* programs that also move the lexer, the current element, the recorded lists, the version *)
+Hypothesis KLX : forall st l, K (set_lex st l) = K st.
+Hypothesis KLN : forall st l, K (set_line st l) = K st.
+Hypothesis KCU : forall st c, K (set_cur st c) = K st.
+Hypothesis KID : forall st i, K (add_ident st i) = K st.
+Hypothesis KRF : forall st r, K (add_ref st r) = K st.
+Hypothesis KVE : forall st v, K (Parser.set_version st v) = K st.
+
+Lemma kpres_pnext : kpres pnext.
+Proof. intros st. unfold pnext. destruct (next (p_lex st)) as [[line ev l'|line e]| |]; auto. rewrite KLN, KLX. reflexivity. Qed.
+
+Ltac kp_step2 :=
+  lazymatch goal with
+  | |- kpres (mbind _ _) => apply kpres_bind; [|intros]
+  | |- kpres (modify _) => apply kpres_modify; intros; first [apply KCU|apply KID|apply KRF|apply KVE|apply KC]
+  | |- kpres pnext => apply kpres_pnext
+  | |- kpres (check_version _ _ _ _ _) => apply kp_check_version
+  | |- kpres (parse_character_data _ _ _ _ _ _) => apply kp_pcd
+  | |- kpres (parse_attribute_text _ _ _ _ _ _ _ _) => apply kp_pat
+  | |- kpres (find_element_in_spec_checked _ _ _ _) => apply kp_find_elem
+  | |- kpres (check_element_conflict _ _ _ _ _ _) => apply kp_conflict
+  | |- kpres (check_multiplicity _ _ _ _ _ _) => apply kp_mult
+  | |- kpres (parse_file_version _ _) => apply kp_pfv
+  | |- kpres (match ?x with _ => _ end) => destruct x
+  | |- kpres (ret _) => apply kpres_ret
+  | |- kpres get => apply kpres_get
+  | |- kpres (lift _) => apply kpres_lift
+  | |- kpres (mpanic _) => apply kpres_mpanic
+  | |- kpres mfuel => apply kpres_mfuel
+  | |- kpres (hard _ _ _) => apply kpres_hard
+  | |- kpres (optional_error _ _ _ _) => apply kpres_optional_error
+  | |- _ => solve [auto]
+  end.
+
+Definition recT0 := N -> etype -> list (N * cdata) -> option (list N) -> list N -> list nat -> M etree.
+
+Lemma kp_pe_loop (rec : recT0) : (forall n ty a c p ps, kpres (rec n ty a c p ps)) ->
+  forall lfuel name ty attrs comment pos content elem_idx snf stored path,
+  kpres (pe_loop s T tab_el tab_at tab_en check_fn float_parse rec lfuel name ty attrs comment pos content elem_idx snf stored path).
+Proof.
+  intros HR. induction lfuel as [|lf IH]; intros; cbn [pe_loop]; [apply kpres_mfuel|].
+  repeat lazymatch goal with
+  | |- kpres (pe_loop _ _ _ _ _ _ _ _ lf _ _ _ _ _ _ _ _ _ _) => apply IH
+  | |- kpres (rec _ _ _ _ _ _) => apply HR
+  | |- _ => kp_step2
+  end.
+Qed.
+
+Lemma kp_parse_element fuel lfuel : forall n ty a c p ps,
+  kpres (parse_element s T tab_el tab_at tab_en check_fn float_parse fuel lfuel n ty a c p ps).
+Proof.
+  induction fuel as [|f IH]; intros; cbn [parse_element]; [apply kpres_mfuel|]. apply kp_pe_loop. exact IH.
+Qed.
+
+Lemma kp_skip_comments fuel : forall stored tok, kpres (skip_comments fuel stored tok).
+Proof. induction fuel as [|f IH]; intros stored tok; cbn [skip_comments]; [apply kpres_mfuel|]. repeat first [apply IH|kp_step2]. Qed.
+
+Lemma kp_pfh attrs : kpres (parse_file_header s tab_at attrs).
+Proof. unfold parse_file_header, attr_id. repeat kp_step2. Qed.
+
+Lemma kp_verify_end : kpres (verify_end_of_input s).
+Proof.
+  intros st. unfold verify_end_of_input. destruct (next (p_lex st)) as [[line ev l'|line e]| |]; auto.
+  destruct ev; try (pose proof (kpres_optional_error s AdditionalDataError 0 0 (set_lex st l')) as H;
+                    destruct (optional_error s AdditionalDataError 0 0 (set_lex st l')) as [[u x|e0 x]| |]; auto; rewrite H; apply KLX).
+Qed.
 End KPres.
 
 Definition LV (st : pstate) : lstate * N := (p_lex st, p_version st).
@@ -634,6 +701,35 @@ Proof.
   (destruct b1 as [|p]; auto; repeat (destruct p as [p|p|]; auto));
   (destruct b2 as [|p]; auto; repeat (destruct p as [p|p|]; auto)).
   exists true. reflexivity.
+Qed.
+
+(* the header: the standalone flag of the loaded file is the one of the XML declaration - the first event of the lexer; a
+   later declaration never changes it (it is an UnexpectedXmlFileHeader error / warning inside the root element).  Both modes. *)
+Theorem load_standalone (s : bool) bs t st :
+  load s T tab_el tab_at tab_en check_fn float_parse bs = Val (Ret t st) ->
+  exists line sa l1, next (lexer_new bs) = Val (LOk line (EvHeader sa) l1) /\ p_standalone st = sa.
+Proof.
+  unfold load.
+  destruct (version_of_ident "Autosar_4_0_1") as [v401|]; [|destruct (elem T (autosar_element T)); discriminate].
+  destruct (elem T (autosar_element T)) as [e|site|]; try discriminate.
+  unfold parse_arxml. intros H.
+  inv H as ev s1 E1. destruct (pnext_inv _ _ _ E1) as (line1 & l1 & NX1 & _ & _). destruct ev as [sa| | | | |]; try discriminate H.
+  exists line1, sa, l1. split; [exact NX1|].
+  inv H as u2 s2 E2. injection E2 as _ <-.
+  assert (KP : forall {A} (m : M A) x a y, kpres p_standalone m -> m x = Val (Ret a y) -> p_standalone y = p_standalone x)
+    by (intros A m x a y K E; exact (kpres_inv p_standalone m x a y K E)).
+  inv H as tok s3 E3. apply (KP _ pnext) in E3; [|apply kpres_pnext; intros; reflexivity].
+  inv H as r s4 E4. apply (KP _ (skip_comments _ _ _)) in E4; [|apply kp_skip_comments; intros; reflexivity]. destruct r as [stored token].
+  destruct token as [|elemname attr_text| | | |]; try discriminate H.
+  inv H as nmo s5 E5. apply lift_ret_inv in E5 as [_ ->]. inv H as an s6 E6.
+  assert (S6 : s6 = s4). { unfold autosar_name in E6. inv E6 as e0 sy Ey. apply lift_ret_inv in Ey as [_ ->]. injection E6 as _ <-. reflexivity. }
+  subst s6. destruct nmo as [n0|]; [|discriminate H]. destruct (n0 =? an); [|discriminate H].
+  inv H as rt s7 E7. apply lift_ret_inv in E7 as [_ ->].
+  inv H as attributes s8 E8. apply (KP _ (parse_attribute_text _ _ _ _ _ _ _ _)) in E8; [|apply kp_pat; intros; reflexivity].
+  inv H as u9 s9 E9. apply (KP _ (parse_file_header _ _ _)) in E9; [|apply kp_pfh; intros; reflexivity].
+  inv H as root s10 E10. apply (KP _ (parse_element _ _ _ _ _ _ _ _ _ _ _ _ _ _ _)) in E10; [|apply kp_parse_element; intros; reflexivity].
+  inv H as u11 s11 E11. apply (KP _ (verify_end_of_input _)) in E11; [|apply kp_verify_end; intros; reflexivity].
+  injection H as _ <-. rewrite E11, E10, E9, E8, E4, E3. reflexivity.
 Qed.
 
 Theorem load_faithful bs t st :
